@@ -39,6 +39,7 @@ INNERS.update({
     'nested_split': [['split', 'tup2', [['to_list_sum']]], ['scan_add']],     # completion-sensitive inner pipeline: a spurious or missing segment boundary changes the output
     'nested_split_r': [['split', 'tup2', [['count_r']]]],
     'nested_group': [['group', 'mod2', [['first']]], ['count']],
+    'nested_group_s': [['group', 'mod3', [['scan_add']]]],          # inner groups of several parents live at once: their indices must not collide
     'take_last': [['take2'], ['last']],
     'distinct_count': [['distinct'], ['count']],
 })
@@ -123,7 +124,7 @@ FAMILIES = {'confined': confined, 'slots': slots}
 
 
 KEYPAT = [[5, 5, 5], [5, 2, 5], [5, 2, 2], [0, 5, 2], [2, 0, 0]]
-CORE = ('scan_add', 'tee_zip', 'tee_cl', 'take2', 'last', 'distinct', 'pad_end', 'first', 'lag2_sum', 'batch2_sum', 'duc', 'start_with', 'nested_split', 'nested_split_r', 'nested_roll')
+CORE = ('scan_add', 'tee_zip', 'tee_cl', 'take2', 'last', 'distinct', 'pad_end', 'first', 'lag2_sum', 'batch2_sum', 'duc', 'start_with', 'nested_split', 'nested_split_r', 'nested_roll', 'nested_group_s')
 ALLP = (('group', 4), ('roll22', 4), ('roll21', 3), ('roll32', 4), ('split', 4), ('tsplit', 3), ('roll13', 4), ('group_roll', 4))
 
 
@@ -140,18 +141,22 @@ def obligations(tier, seed):
             parents = [x for x in ALLP if heavy <= 2 or x[0] not in ('group_roll', 'roll32')]
         else:
             parents = ALLP
+        if q and inner == 'nested_group_s':
+            parents = [x for x in ALLP if x[0] in ('group', 'roll21')]
         for parent, n in parents:
             if not q:
                 n += 1 if heavy > 2 or parent in ('group', 'split', 'group_roll') else 2
             if q and heavy > 2 and parent in ('group', 'split', 'group_roll', 'roll22'):
                 n = 3
-            obs.append(Ob(PROP, 'confined', dict(parent=parent, inner=inner, n=n), budget=b, group='confined:' + parent,
+            obs.append(Ob(PROP, 'confined', dict(parent=parent, inner=inner, n=n), budget=b * 3 if heavy > 3 else b, group='confined:' + parent,
                           bound=dict(items=n, parent=parent, inner=C.show(INNERS[inner]))))
         if heavy > 1:
             for kp in (KEYPAT[:3] if q else KEYPAT):
                 if q and inner not in CORE:
                     continue
-                obs.append(Ob(PROP, 'slots', dict(inner=inner, keys=kp), budget=b, bound=dict(lifetimes=3, key_indices=kp, items=4)))
+                if q and inner == 'nested_group_s' and kp != KEYPAT[1]:
+                    continue
+                obs.append(Ob(PROP, 'slots', dict(inner=inner, keys=kp), budget=b * 3 if heavy > 3 else b, bound=dict(lifetimes=3, key_indices=kp, items=4)))
         elif not inner.startswith('nested') or not q:
             obs.append(Ob(PROP, 'slots', dict(inner=inner), budget=b, bound=dict(lifetimes=3, key_indices='solver-chosen from {0,2,5}', items=4)))
     obs.append(Ob(PROP, 'confined', dict(parent='roll22', inner='tee_zip', n=4, _twin='reach'), budget=60, expect='refute'))
